@@ -31,7 +31,6 @@ use jj_lib::matchers::NothingMatcher;
 use jj_lib::matchers::PrefixMatcher;
 use jj_lib::merged_tree::MergedTree;
 use jj_lib::repo::Repo as _;
-use jj_lib::repo_path::RepoPath;
 use jj_lib::repo_path::RepoPathBuf;
 use jj_lib::store::Store;
 use jj_lib::working_copy::SnapshotOptions;
@@ -152,6 +151,9 @@ fn existing_paths(root: &Path) -> (Vec<Vec<String>>, Vec<Vec<String>>) {
         let mut names: Vec<_> = fs::read_dir(dir).unwrap().map(|e| e.unwrap().file_name().into_string().unwrap()).collect();
         names.sort();
         for n in names {
+            if rel.is_empty() && n == ".jj" {
+                continue; // the workspace's own state directory is not edited
+            }
             let p = dir.join(&n);
             rel.push(n);
             if p.symlink_metadata().unwrap().is_dir() {
@@ -173,7 +175,7 @@ fn random_edit(h: &mut Hist, rng: &mut Rng) -> &'static str {
     let as_refs = |v: &Vec<String>| -> Vec<&'static str> {
         v.iter().map(|s| -> &'static str { Box::leak(s.clone().into_boxed_str()) }).collect()
     };
-    match rng.below(16) {
+    match rng.below(17) {
         0 | 1 | 2 => {
             // new or overwritten file somewhere
             let mut comps = rel_path(rng, 2);
@@ -185,7 +187,7 @@ fn random_edit(h: &mut Hist, rng: &mut Rng) -> &'static str {
         }
         3 | 4 => {
             // same-size modification of an existing regular file
-            let regular: Vec<_> = files.iter().filter(|f| join(&h.wc, &as_refs(f)).symlink_metadata().unwrap().is_file()).collect();
+            let regular: Vec<Vec<String>> = files.iter().filter(|f| join(&h.wc, &as_refs(f)).symlink_metadata().unwrap().is_file()).cloned().collect();
             if regular.is_empty() {
                 return "noop";
             }
@@ -196,14 +198,14 @@ fn random_edit(h: &mut Hist, rng: &mut Rng) -> &'static str {
                 return "noop";
             }
             let mut new = old.clone();
-            new[1] = b'0' + ((old[1] - b'0' + 1 + rng.below(3) as u8) % 6);
+            new[1] = b'0' + ((old[1].wrapping_sub(b'0') % 6 + 1 + rng.below(3) as u8) % 6);
             new[2] = b'0' + rng.below(10) as u8;
             let exec = p.metadata().unwrap().permissions().mode() & 0o111 != 0;
             h.write_file(&f, &new, exec);
             "modify same size"
         }
         5 => {
-            let regular: Vec<_> = files.iter().filter(|f| join(&h.wc, &as_refs(f)).symlink_metadata().unwrap().is_file()).collect();
+            let regular: Vec<Vec<String>> = files.iter().filter(|f| join(&h.wc, &as_refs(f)).symlink_metadata().unwrap().is_file()).cloned().collect();
             if regular.is_empty() {
                 return "noop";
             }
@@ -301,6 +303,17 @@ fn random_edit(h: &mut Hist, rng: &mut Rng) -> &'static str {
             } else {
                 "noop"
             }
+        }
+        15 if rng.chance(1, 2) => {
+            // something at the (possible) submodule path
+            if rng.chance(1, 2) {
+                remove_any(&join(&h.wc, &["sm"]));
+                h.touch(&["sm"]);
+                h.write_file(&["sm", "f"], b"c01", false);
+            } else {
+                h.write_file(&["sm"], b"c02", false);
+            }
+            "at submodule path"
         }
         _ => {
             // new empty directory
@@ -401,6 +414,9 @@ fn prefix_list(pats: &[&str]) -> Vec<RepoPathBuf> {
 fn main() {
     jjv::run("C23", "C23", |ctx| {
         unsafe { std::env::set_var("TMPDIR", &ctx.scratch) };
+        if std::env::var_os("VERIF_DEBUG").is_some() {
+            std::panic::set_hook(Box::new(|info| eprintln!("panic: {info}\n{}", std::backtrace::Backtrace::force_capture())));
+        }
         let test_repo = TestRepo::init();
         let store = test_repo.repo.store().clone();
         const ROUNDS: usize = 4;
@@ -412,7 +428,7 @@ fn main() {
             let mut rng = ctx.rng(hidx);
             let dir = ctx.scratch.join(format!("h{hidx}"));
             let wc = dir.join("wc");
-            let state = dir.join("state");
+            let state = wc.join(".jj").join("working_copy"); // as in a real workspace
             fs::create_dir_all(&wc).unwrap();
             fs::create_dir_all(&state).unwrap();
             let mut intern = Intern::default();
@@ -422,7 +438,14 @@ fn main() {
             // initial checkout
             let mut tb = TestTreeBuilder::new(store.clone());
             let mut used: BTreeMap<String, ()> = BTreeMap::new();
-            for _ in 0..rng.below(7) {
+            if hidx == 0 {
+                // corpus history (index 0): tracked files below a directory that round 0 will
+                // ignore; see the scripted edits of round 0 below
+                for (p, c) in [("b/d/f", "c01"), ("b/d/a/g", "c02"), ("b/g", "c03"), ("f", "c04")] {
+                    tb.file(&RepoPathBuf::from_internal_string(p).unwrap(), c);
+                }
+            }
+            for _ in 0..(if hidx == 0 { 0 } else { rng.below(7) }) {
                 let mut comps = rel_path(&mut rng, 2);
                 comps.push(*rng.pick(FILES));
                 let s = comps.join("/");
@@ -434,28 +457,33 @@ fn main() {
                 let path = RepoPathBuf::from_internal_string(s).unwrap();
                 match rng.below(8) {
                     0 => tb.symlink(&path, &format!("t{:02}", rng.below(4))),
-                    1 if rng.chance(1, 2) => tb.submodule(&path, CommitId::from_hex("1111111111111111111111111111111111111111")),
                     _ => {
                         tb.file(&path, format!("c{:02}", rng.below(6))).executable(rng.chance(1, 6));
                     }
                 }
+            }
+            if hidx != 0 && rng.chance(1, 8) {
+                // a submodule entry, only at the top level (jj does not support submodules; a
+                // regular file above a submodule path trips a debug assertion in snapshot())
+                let path = RepoPathBuf::from_internal_string("sm").unwrap();
+                tb.submodule(&path, CommitId::from_hex("1111111111111111111111111111111111111111"));
             }
             let tree0 = tb.write_merged_tree();
             if ts.check_out(&tree0).is_err() {
                 ctx.count("initial checkout failed");
                 continue;
             }
-            let sparse: &[&str] = match rng.below(10) {
+            let sparse: &[&str] = match if hidx == 0 { 9 } else { rng.below(10) } {
                 0 => &["a"],
                 1 => &["a", "b/d"],
                 2 => &["a/f", "b"],
                 _ => &[""],
             };
-            if sparse != [""] && ts.set_sparse_patterns(prefix_list(sparse)).is_err() {
+            if !(sparse.len() == 1 && sparse[0].is_empty()) && ts.set_sparse_patterns(prefix_list(sparse)).is_err() {
                 ctx.count("set_sparse_patterns failed");
                 continue;
             }
-            let auto: &[&str] = match rng.below(10) {
+            let auto: &[&str] = match if hidx == 0 { 9 } else { rng.below(10) } {
                 0 => &["a"],
                 1 => &[],
                 _ => &[""],
@@ -466,8 +494,19 @@ fn main() {
                 let i = hidx * ROUNDS + round;
                 h.touched.clear();
                 let mut kinds = vec![];
-                for _ in 0..rng.range(1, 5) {
-                    kinds.push(random_edit(&mut h, &mut rng));
+                if i == 0 {
+                    // corpus case (was a defect, fixed in /repo: "a tracked file below a directory
+                    // replaced by a file is deleted, not an error"): b/ becomes ignored, its
+                    // subdirectory b/d is replaced by a regular file; b/d/f and b/d/a/g must be
+                    // recorded as deleted, b/g stays, the new file b/d is ignored (untracked).
+                    h.write_file(&[".gitignore"], b"b/\n", false);
+                    remove_any(&join(&h.wc, &["b", "d"]));
+                    h.write_file(&["b", "d"], b"c05", false);
+                    kinds.push("corpus: dir -> file below ignored dir");
+                } else {
+                    for _ in 0..rng.range(1, 5) {
+                        kinds.push(random_edit(&mut h, &mut rng));
+                    }
                 }
                 // inputs
                 let mut ign_file = vec![];
@@ -542,7 +581,7 @@ fn main() {
                     let changed = new_tree != old;
                     let shape = format!(
                         "sparse={} auto={} max={} {}",
-                        if sparse == [""] { "all" } else { "some" },
+                        if sparse.len() == 1 && sparse[0].is_empty() { "all" } else { "some" },
                         match auto { [""] => "all", [] => "none", _ => "some" },
                         if max_size == u64::MAX { "inf" } else { "20" },
                         if failed { "FAILED" } else if changed { "tree changed" } else { "tree same" },
